@@ -7,7 +7,7 @@
    (each stream compared with its solo run; `-race` in the thorough tier) are supporting evidence. *)
 From Coq Require Import String.
 From Verif Require Import Base.ListX Indep.Frame Indep.StoresBaseline.
-From VerifGen Require Import GlobalStores GlobalVars.
+From VerifGen Require Import GlobalStores GlobalVars OptionCaptures.
 
 (* any number of instances, any schedule: each instance's outputs and final state are those of its solo run *)
 Theorem C16_noninterference_partial : forall (Env St In Out : Type) (step : Env -> St -> In -> St * Out) env sched sts d i,
@@ -27,6 +27,12 @@ Print Assumptions C16_no_shared_mutable_state.
 Theorem C16_no_shared_stateful_objects : forallb allowed_global global_vars = true.
 Proof. vm_compute. reflexivity. Qed.
 Print Assumptions C16_no_shared_stateful_objects.
+
+(* ... nor through an option value: no option constructor captures reference-like state that it created itself
+   (an option value is created once and applied to every instance a receiver or exporter builds) *)
+Theorem C16_options_capture_no_state : option_captures = [].
+Proof. reflexivity. Qed.
+Print Assumptions C16_options_capture_no_state.
 
 Example C16_example :
   let step := fun (_ : unit) (s : N) (x : N) => (s + x, s + x) in
